@@ -189,6 +189,44 @@ CorrectlyRounded(f, p) ==
                  IN IF n.s = 0 THEN f.c = "zero" /\ f.sg = sg
                     ELSE /\ f.c = "fin" /\ f.sg = sg
                          /\ RatCmp(FltToRat([f EXCEPT !.sg = 0]), RatMul(RatFromInt(n), ulp)) = 0
+\* the double nearest to a non-zero exact rational p, as a value: class + signed exact rational
+RoundRat(p) ==
+    LET ap == RatAbs(p)
+        neg == p.n.s < 0
+    IN IF RatCmp(ap, OverflowAt) >= 0 THEN [c |-> "inf", neg |-> neg, v |-> RatFromInt(IntZero)]
+       ELSE LET E == RatBinade(ap)
+                ue == IF E - 52 < -1074 THEN -1074 ELSE E - 52
+                ulp == Pow2Rat(ue)
+                scaled == RatDiv(ap, ulp)
+                fl == RatFloor(scaled)
+                frac2 == RatCmp(RatSub(scaled, RatFromInt(fl)), RatMk(IntOne, <<2>>))
+                n == IF frac2 > 0 \/ (frac2 = 0 /\ IntIsOdd(fl)) THEN IntAdd(fl, IntOne) ELSE fl
+                mag == RatMul(RatFromInt(n), ulp)
+            IN IF n.s = 0 THEN [c |-> "zero", neg |-> neg, v |-> RatFromInt(IntZero)]
+               ELSE [c |-> "fin", neg |-> neg, v |-> IF neg THEN RatNeg(mag) ELSE mag]
+\* f is the double an exact rational rounds to (zero results: class only, the sign of a zero is not judged)
+RoundsTo(f, p) == IF p.n.s = 0 THEN f.c = "zero" ELSE CorrectlyRounded(f, p)
+(* Float division family on finite operands with a non-zero divisor, as the *)
+(* standard library defines them:  x / y  correctly rounded;  x % y  (fmod) *)
+(* is EXACT: x - trunc(x/y)*y computed without rounding, sign of x;         *)
+(* x %% y (rem_euclid) = r if r >= 0 else round(r + |y|);                   *)
+(* x // y (div_euclid) = q if r >= 0 else round(q -+ 1) by the sign of y,   *)
+(* where q = trunc(round(x / y)).                                           *)
+FRemExact(x, y) == RatSub(x, RatMul(RatFromInt(RatTrunc(RatDiv(x, y))), y))
+FDivFamilyOk(op, f, x, y) ==
+    LET r == FRemExact(x, y)
+    IN CASE op = "/" -> RoundsTo(f, RatDiv(x, y))
+         [] op = "%" -> RoundsTo(f, r)
+         [] op = "%%" -> IF r.n.s < 0 THEN RoundsTo(f, RatAdd(r, RatAbs(y))) ELSE RoundsTo(f, r)
+         [] op = "//" ->
+              IF x.n.s = 0 THEN f.c = "zero"
+              ELSE LET q0 == RoundRat(RatDiv(x, y))
+                   IN IF q0.c = "inf" THEN TRUE
+                      ELSE LET qt == RatFromInt(RatTrunc(q0.v))
+                           IN IF r.n.s < 0
+                              THEN RoundsTo(f, IF y.n.s > 0 THEN RatSub(qt, RatFromInt(IntOne))
+                                                            ELSE RatAdd(qt, RatFromInt(IntOne)))
+                              ELSE RoundsTo(f, qt)
 (* ----------------------- extended reals and order ---------------------- *)
 IsReal(x) == x.k \in {"int", "rat", "float"}
 IsNaN(x) == x.k = "float" /\ x.f.c = "nan"
